@@ -42,10 +42,10 @@ MANIFEST = {
 }
 
 PLAN17 = {
-    "quick": dict(mc=["MC_Reobserve_quick.cfg", "MC_Reobserve_post.cfg"], tlc=(150, 16),
-                  gens=[("sweep", 112), ("random", 160), ("phase", 120), ("fill", 60), ("txids", 60), ("wide", 12)]),
-    "thorough": dict(mc=["MC_Reobserve_thorough.cfg", "MC_Reobserve_post.cfg"], tlc=(2500, 24),
-                     gens=[("sweep", 448), ("random", 3000), ("phase", 2500), ("fill", 600), ("txids", 600), ("wide", 60)]),
+    "quick": dict(mc=["MC_Reobserve_quick.cfg", "MC_Reobserve_post.cfg"], tlc=(150, 16), cleanup=28,
+                  gens=[("sweep", 112), ("random", 160), ("phase", 120), ("fill", 60), ("txids", 60), ("burst1100", 1), ("burst2100", 1), ("wide", 12)]),
+    "thorough": dict(mc=["MC_Reobserve_thorough.cfg", "MC_Reobserve_post.cfg"], tlc=(2500, 24), cleanup=140,
+                     gens=[("sweep", 448), ("random", 3000), ("phase", 2500), ("fill", 600), ("txids", 600), ("burst1100", 2), ("burst2100", 2), ("burst5000", 2), ("wide", 60)]),
 }
 PLAN15 = {"quick": dict(seeded=800, batches=250), "thorough": dict(seeded=20000, batches=6000)}
 
@@ -132,7 +132,8 @@ def run17(tier, replay):
     if replay:
         rp = json.load(open(replay))
         scenarios = [v["detail"]["scenario"] for v in rp.get("violations", []) if v.get("detail", {}).get("scenario")]
-        if not scenarios:
+        cleanups = [v["detail"]["cleanup"] for v in rp.get("violations", []) if v.get("detail", {}).get("cleanup")]
+        if not scenarios and not cleanups:
             raise vlib.Broken("replay file has no scenario")
     else:
         for cfg in plan["mc"]:
@@ -144,9 +145,15 @@ def run17(tier, replay):
         scenarios = fg.reobs_tlc_scenarios(work, plan["tlc"][0], plan["tlc"][1], seed)
         for prof, n in plan["gens"]:
             scenarios += fg.reobs_gen_scenarios(seed, n, prof)
-    lines, wall = fg.reobs_replay(work, scenarios)
+        cleanups = fg.cleanup_scenarios(seed, plan["cleanup"])
+    lines, wall = fg.reobs_replay(work, scenarios) if scenarios else ([], 0.0)
     print("replayed %d histories (%d steps) on the real router in %.1fs" % (len(scenarios), len(lines), wall))
-    extra, expect = ([], {}) if replay else _selftests17(lines)
+    # the third poster on the outbound queue: the processor's cleanup pass (one small trace per scenario)
+    cl_lines, cl_wall = fg.cleanup_replay(work, cleanups, len(scenarios) + 1) if cleanups else ([], 0.0)
+    print("ran the real processor handleCleanup against %d outbound-queue fill levels (%d lines) in %.1fs" % (len(cleanups), len(cl_lines), cl_wall))
+    router_lines = lines
+    lines = lines + cl_lines
+    extra, expect = ([], {}) if replay else _selftests17(router_lines)
     rejs, r = fg.reobs_validate(work, lines + extra)
     selfrej = {rj["t"] for rj in rejs if rj["t"] in expect}
     if not replay and (len(expect) < 2 or selfrej != set(expect)):
@@ -158,18 +165,24 @@ def run17(tier, replay):
     byn = {(ln["t"], ln["n"]): ln for ln in lines}
     verdict = vlib.Verdict(prop)
     found = []
+    stored = set()
     for rj in rejs:
         ln = byn.get((rj["t"], rj["n"]), {"ev": rj.get("ev"), "a": {}, "s": {}})
         cls = ann.get((rj["t"], rj["n"]), {})
         sc = scenarios[rj["t"] - 1] if 0 < rj["t"] <= len(scenarios) else None
+        cu = cleanups[rj["t"] - len(scenarios) - 1] if len(scenarios) < rj["t"] <= len(scenarios) + len(cleanups) else None
+        if sc is not None and (rj["t"] in stored or len(json.dumps(sc)) > 2000000):
+            sc = None                      # one copy of a history per replay file; huge ones are regenerated from the seed
+        stored.add(rj["t"])
         found.append((fg.reobs_signature(rj, ln, cls), {"line": ln, "why": rj.get("why"), "spec_state": rj.get("spec"), "class": cls,
-                                                         "tlc": rj.get("tlc"), "scenario": sc}))
+                                                         "tlc": rj.get("tlc"), "scenario": sc, "cleanup": cu}))
     _add_distinct_first(verdict, found)
     rc = verdict.finish()
 
     # coverage
     reqc = Counter()
     txlens = Counter()
+    livec = Counter()
     aliasc = Counter()
     advc = Counter()
     postc = Counter()
@@ -179,6 +192,7 @@ def run17(tier, replay):
         if c["ev"] == "Request":
             reqc[(c["known"], c["wide"], c["fill"], c["age"], c["fwd"], c["phase"])] += 1
             txlens[c["txlen"]] += 1
+            livec[(c["live"], c["age"], c["fwd"])] += 1
             if c["alias"] and c["age"] == "never":
                 aliasc["forwarded" if c["fwd"] else "dropped-%s" % c["fill"]] += 1
         elif c["ev"] == "Advance":
@@ -190,7 +204,9 @@ def run17(tier, replay):
                 "forwarded-again": any(k[3] in ("gtWP", "eqWP") and k[4] for k in reqc), "dropped-full": any(k[2] in ("full", "cap0") and not k[4] for k in reqc),
                 "dropped-unknown": any(not k[0] for k in reqc), "zone-both": {k[4] for k in reqc if k[3] == "zone" and k[2] in ("empty", "partial")} == {True, False},
                 "post-ok": any(k[0] for k in postc), "post-full": any(not k[0] for k in postc),
-                "colliding-tx-ids-forwarded": aliasc["forwarded"] >= 20, "tx-id-lengths": len(txlens) >= 8}
+                "colliding-tx-ids-forwarded": aliasc["forwarded"] >= 20, "tx-id-lengths": len(txlens) >= 8,
+                "suppressed-with-more-than-1000-pairs-in-window": livec[("gt1000", "ltW", False)] >= 6,
+                "cleanup-post-ok": any(k == (True, "cleanup") for k in postc), "cleanup-post-full": any(k == (False, "cleanup") for k in postc)}
         missing = [k for k, v in need.items() if not v]
         if missing:
             problems.append("vacuous run: never observed %s" % missing)
@@ -202,19 +218,21 @@ def run17(tier, replay):
     cov = {
         "states": mc_states if not replay else max(r["distinct"], 1),
         "transitions": mc_trans if not replay else max(r["generated"], 1),
-        "traces_validated_against_impl": len(scenarios),
+        "traces_validated_against_impl": len(scenarios) + len(cleanups),
         "samples": sample,
         "evaluations": sum(acts.values()),
         "distinct_nontrivial": len(reqc) + len(advc) + len(postc),
         "rule": "one evaluation = one step driven on the real router/post function whose observable post-state TLC compared with the "
                 "specification's; distinct = distinct (chain known?, id >= 65536?, queue fill class, age class of the pair relative to the "
                 "window, forwarded?, at a ticker instant?) tuples for requests + (ticks crossed, Add mode, ticks coalesced?, long?) for advances "
-                "+ (ok?, via admin API?) for posts",
+                "+ (ok?, poster: function / admin API / processor cleanup pass) for posts",
         "mc_runs": mcinfo, "trace_spec_states": r["distinct"],
         "steps": dict(acts),
         "request_classes": {"/".join(map(str, k)): v for k, v in sorted(reqc.items(), key=str)},
         "advance_classes": {"/".join(map(str, k)): v for k, v in sorted(advc.items(), key=str)},
         "post_classes": {"/".join(map(str, k)): v for k, v in sorted(postc.items(), key=str)},
+        "requests_by_pairs_remembered_in_window": {"/".join(map(str, k)): v for k, v in sorted(livec.items(), key=str)},
+        "cleanup_pass_scenarios": len(cleanups),
         "tx_id_lengths_bytes": {str(k): v for k, v in sorted(txlens.items())},
         "requests_whose_id_collides_with_a_forwarded_one_under_crop_or_pad": dict(aliasc),
         "queue_capacities": {str(k): v for k, v in sorted(caps.items())},
